@@ -231,7 +231,7 @@ func realExtends(raw json.RawMessage) any {
 	if err := json.Unmarshal(raw, &a); err != nil {
 		return map[string]any{"bad": err.Error()}
 	}
-	debug.SetMaxStack(200 << 20)
+	debug.SetMaxStack(64 << 20)
 	files := map[string]string{}
 	for _, f := range a.Files {
 		name := f[0].(string)
@@ -271,6 +271,9 @@ func realExtends(raw json.RawMessage) any {
 }
 
 func judgeExtends(args, real, drv json.RawMessage) *core.Verdict {
+	if why := nonTermination(real); why != "" {
+		return core.Fail("hang@extends", "ApplyExtends does not return on this services graph ("+why+"); the model answers "+string(drv))
+	}
 	if v := core.CrashVerdict(real); v != nil {
 		return v
 	}
@@ -308,7 +311,7 @@ func realInclude(raw json.RawMessage) any {
 	if err := json.Unmarshal(raw, &a); err != nil {
 		return map[string]any{"bad": err.Error()}
 	}
-	debug.SetMaxStack(200 << 20)
+	debug.SetMaxStack(64 << 20)
 	files := map[string]string{}
 	for _, f := range a.Files {
 		name := f[0].(string)
